@@ -138,6 +138,10 @@ func gfmModelCases(c *Ctx, items []docItem, max int) {
 		parseTreeGfmCase(c, it.doc)
 		convertGfmCase(c, convertCfgs[i%len(convertCfgs)], it.doc)
 		parseTreeXCase(c, gfmSubsets[i%len(gfmSubsets)], it.doc)
+		if bytes.IndexByte(it.doc, '|') >= 0 {
+			// the statement of C17 evaluated on the model's tree (model/GfmSpec.v): always true
+			c.Case("GfmTablesOk", []string{"stTl", hx(it.doc)}, "1")
+		}
 	}
 	c.Rep.Extra["gfm_model_documents"] = n
 }
